@@ -48,7 +48,7 @@ pub fn file(p: &mut Parser) {
 }
 
 fn package_decl(p: &mut Parser) {
-    assert!(p.at(T![package]));
+    assert!(p.at_current(T![package]));
     let m = p.open();
     p.expect(T![package]);
     if p.at(T![ident]) {
@@ -60,7 +60,7 @@ fn package_decl(p: &mut Parser) {
 }
 
 fn import_decl(p: &mut Parser) {
-    assert!(p.at(T![import]));
+    assert!(p.at_current(T![import]));
     let m = p.open();
     p.expect(T![import]);
     if p.at(T![ident]) {
@@ -109,7 +109,7 @@ fn attribute_list(p: &mut Parser) -> MarkerClosed {
 }
 
 fn attribute(p: &mut Parser) {
-    assert!(p.at(T![#]));
+    assert!(p.at_current(T![#]));
     let m = p.open();
     p.expect(T![#]);
     p.eat(T![!]);
@@ -140,7 +140,7 @@ fn attribute_body(p: &mut Parser) {
 }
 
 fn extern_decl(p: &mut Parser) {
-    assert!(p.at(T![extern]));
+    assert!(p.at_current(T![extern]));
     let m = p.open();
     extern_decl_with_marker(p, m);
 }
@@ -226,7 +226,7 @@ fn extern_decl_with_marker(p: &mut Parser, m: MarkerOpened) {
 }
 
 fn func(p: &mut Parser) {
-    assert!(p.at(T![fn]));
+    assert!(p.at_current(T![fn]));
     let m = p.open();
     func_with_marker(p, m);
 }
@@ -250,7 +250,7 @@ fn func_with_marker(p: &mut Parser, m: MarkerOpened) {
 }
 
 fn impl_block(p: &mut Parser) {
-    assert!(p.at(T![impl]));
+    assert!(p.at_current(T![impl]));
     let m = p.open();
     impl_block_with_marker(p, m);
 }
@@ -307,7 +307,7 @@ fn impl_block_with_marker(p: &mut Parser, m: MarkerOpened) {
 }
 
 fn trait_def(p: &mut Parser) {
-    assert!(p.at(T![trait]));
+    assert!(p.at_current(T![trait]));
     let m = p.open();
     trait_def_with_marker(p, m);
 }
@@ -330,7 +330,7 @@ fn trait_def_with_marker(p: &mut Parser, m: MarkerOpened) {
 // }
 
 fn trait_method_list(p: &mut Parser) {
-    assert!(p.at(T!['{']));
+    assert!(p.at_current(T!['{']));
     p.expect(T!['{']);
     let m = p.open();
     while !p.at(T!['}']) && !p.eof() {
@@ -346,7 +346,7 @@ fn trait_method_list(p: &mut Parser) {
 }
 
 fn trait_method(p: &mut Parser) {
-    assert!(p.at(T![fn]));
+    assert!(p.at_current(T![fn]));
     let m = p.open();
     p.expect(T![fn]);
     p.expect(T![ident]);
@@ -360,7 +360,7 @@ fn trait_method(p: &mut Parser) {
 }
 
 fn enum_def(p: &mut Parser) {
-    assert!(p.at(T![enum]));
+    assert!(p.at_current(T![enum]));
     let m = p.open();
     enum_def_with_marker(p, m);
 }
@@ -378,7 +378,7 @@ fn enum_def_with_marker(p: &mut Parser, m: MarkerOpened) {
 }
 
 fn struct_def(p: &mut Parser) {
-    assert!(p.at(T![struct]));
+    assert!(p.at_current(T![struct]));
     let m = p.open();
     struct_def_with_marker(p, m);
 }
@@ -396,7 +396,7 @@ fn struct_def_with_marker(p: &mut Parser, m: MarkerOpened) {
 }
 
 fn variant_list(p: &mut Parser) {
-    assert!(p.at(T!['{']));
+    assert!(p.at_current(T!['{']));
     p.expect(T!['{']);
     let m = p.open();
     while !p.at(T!['}']) && !p.eof() {
@@ -412,7 +412,7 @@ fn variant_list(p: &mut Parser) {
 }
 
 fn struct_field_list(p: &mut Parser) {
-    assert!(p.at(T!['{']));
+    assert!(p.at_current(T!['{']));
     p.expect(T!['{']);
     let m = p.open();
     while !p.at(T!['}']) && !p.eof() {
@@ -428,7 +428,7 @@ fn struct_field_list(p: &mut Parser) {
 }
 
 fn struct_field(p: &mut Parser) {
-    assert!(p.at(T![ident]));
+    assert!(p.at_current(T![ident]));
     let m = p.open();
     p.expect(T![ident]);
     p.expect(T![:]);
@@ -437,7 +437,7 @@ fn struct_field(p: &mut Parser) {
 }
 
 fn variant(p: &mut Parser) {
-    assert!(p.at(T![ident]));
+    assert!(p.at_current(T![ident]));
     let m = p.open();
     p.expect(T![ident]);
     if p.at(T!['(']) {
@@ -468,7 +468,7 @@ const TYPE_FIRST: &[TokenKind] = &[
 ];
 
 fn type_list(p: &mut Parser) {
-    assert!(p.at(T!['(']));
+    assert!(p.at_current(T!['(']));
     let m = p.open();
     p.expect(T!['(']);
     while !p.at(T![')']) && !p.eof() {
@@ -484,7 +484,7 @@ fn type_list(p: &mut Parser) {
 }
 
 fn generic(p: &mut Parser, allow_bounds: bool) {
-    assert!(p.at(T![ident]));
+    assert!(p.at_current(T![ident]));
     let m = p.open();
     p.expect(T![ident]);
     if p.at(T!['[']) {
@@ -518,7 +518,7 @@ fn trait_set(p: &mut Parser) {
 }
 
 fn generic_list(p: &mut Parser, allow_bounds: bool) {
-    assert!(p.at(T!['[']));
+    assert!(p.at_current(T!['[']));
     let m = p.open();
     p.expect(T!['[']);
     while !p.at(T![']']) && !p.eof() {
@@ -535,7 +535,7 @@ fn generic_list(p: &mut Parser, allow_bounds: bool) {
 
 const PARAM_LIST_RECOVERY: &[TokenKind] = &[T![->], T!['{'], T![fn]];
 fn param_list(p: &mut Parser) {
-    assert!(p.at(T!['(']));
+    assert!(p.at_current(T!['(']));
     let m = p.open();
 
     p.expect(T!['(']);
@@ -554,7 +554,7 @@ fn param_list(p: &mut Parser) {
 }
 
 fn param(p: &mut Parser) {
-    assert!(p.at(T![ident]));
+    assert!(p.at_current(T![ident]));
     let m = p.open();
     p.expect(T![ident]);
     p.expect(T![:]);
@@ -715,7 +715,7 @@ fn type_atom(p: &mut Parser) -> Option<MarkerClosed> {
 }
 
 fn type_param_list(p: &mut Parser) {
-    assert!(p.at(T!['[']));
+    assert!(p.at_current(T!['[']));
     let m = p.open();
     p.expect(T!['[']);
     while !p.at(T![']']) && !p.eof() {
@@ -731,7 +731,7 @@ fn type_param_list(p: &mut Parser) {
 }
 
 pub fn block(p: &mut Parser) {
-    assert!(p.at(T!['{']));
+    assert!(p.at_current(T!['{']));
     let m = p.open();
     p.expect(T!['{']);
 
